@@ -141,4 +141,28 @@ PROPERTIES = {
                          'the tokenizer under contract B1'],
         'assumptions': ['surrounding texts contain no ESC in P3'],
     },
+    'C16': {
+        'groups': ['H1', 'F3', 'M2', 'SL'],
+        'level': 'other',
+        'explanation': 'Unbounded in text, pattern, settings, count, flags and table (abstract table; re.finditer / re.escape '
+                       'uninterpreted functions of all their arguments, results of up to 3 matches): format_matching / '
+                       'unformat_matching leave exactly the state reached by apply_formatting / remove_formatting(fmt, m.start(), '
+                       'm.end()) over the first count matches (all if negative), with the pattern escaped unless regex and '
+                       'IGNORECASE unless match_case - a swapped flag, dropped argument or off-by-one bound is a counter-model, '
+                       'confirmed natively by a search over concrete patterns.  "Characters outside all matches keep their settings" '
+                       'and "text never changes" then follow from the contracts of apply/remove_formatting (F3, M2, bounded tables).',
+        'trusted_base': ['Python re as given (oracle and implementation use the same re calls)'],
+        'assumptions': ['re.finditer results longer than 3 matches are not enumerated (bounded)'],
+    },
+    'C17': {
+        'groups': ['N1', 'N2', 'SL'],
+        'level': 'other',
+        'explanation': 'ansi_settings_at(i) is the abstraction function itself ([] outside 0..len-1, else the active objects in '
+                       'order, as a new list) and settings_at(i) the ";"-join of their texts; find_settings is checked against the '
+                       'per-position settings over the inclusive slice-normalised range (Skolemised over all positions): found_start '
+                       'has all given settings, nothing before it does (forward), every position up to found_end / the range end '
+                       'has them, found_end lacks one; (None, None) and empty-settings cases.  Bounded-symbolic tables.',
+        'trusted_base': ['representation invariant wf over-approximates reachable values'],
+        'assumptions': ['searched settings given as AnsiSetting objects (other spellings: C14)'],
+    },
 }
